@@ -352,7 +352,7 @@ def drv_tms(ctx: Ctx, sub: SubCheck):
         for k in tms_classes(c):
             t.cls(sub.name, k)
 
-    ctx.shards(lambda i, t: ctx.hypothesis(sub.name, strat, oracle_tms, ctx.pick(350, 15000), tally=t, shard=i, record=rec), list(range(16)))
+    ctx.shards(lambda i, t: ctx.hypothesis(sub.name, strat, oracle_tms, ctx.pick(350, 8000), tally=t, shard=i, record=rec), list(range(16)))
 
 
 def drv_ars(ctx: Ctx, sub: SubCheck):
@@ -391,7 +391,7 @@ def drv_ars(ctx: Ctx, sub: SubCheck):
         for k in ars_classes(c):
             t.cls(sub.name, k)
 
-    ctx.shards(lambda i, t: ctx.hypothesis(sub.name, strat, oracle_ars, ctx.pick(300, 15000), tally=t, shard=i, record=rec), list(range(16)))
+    ctx.shards(lambda i, t: ctx.hypothesis(sub.name, strat, oracle_ars, ctx.pick(300, 8000), tally=t, shard=i, record=rec), list(range(16)))
 
 
 SUBCHECKS = [
